@@ -471,7 +471,6 @@ Qed.
 (* ------------------------------------------------------------------ C04 clause 3: cryptographic use is gated *)
 (* "entered": one of the gated CryptographyEngine methods was called with the object's key material, whatever it
    then returned.  Success is a special case. *)
-Definition entered (r : outcome) : Prop := r = OK \/ r = CryptoFail \/ r = CrashAfter.
 
 Lemma use_key_gated : forall cok s u p t b r,
   use_key cok s u p t b = r -> entered r ->
@@ -487,8 +486,6 @@ Proof.
   exists ob. repeat split; try assumption. apply otype_eqb_eq; assumption. apply is_active_iff; assumption.
 Qed.
 
-Definition usable (s : store) (u : Z) (t : otype) (b : Z) : Prop :=
-  exists ob, lookup u (objs s) = Some ob /\ oty ob = t /\ ost ob = Some Active /\ has_bit (omask ob) b = true.
 
 Theorem encrypt_gated : forall cok s u p r s',
   step cok s (Encrypt u p) = (r, s') -> entered r -> s' = s /\ usable s u SymmetricKey bENCRYPT.
@@ -616,6 +613,56 @@ Qed.
    creating ones and a successful DeriveKey adds an object (stated through crypto_called for the correspondence) *)
 Lemma crypto_called_entered : forall o r, crypto_called o r = true -> entered r.
 Proof. intros o r H. unfold crypto_called in H. apply andb_true_iff in H. destruct H as [_ H]. unfold entered. destruct r; auto; discriminate. Qed.
+
+(* all seven in one statement: the crypto engine is entered only through the gate; gated operations change the
+   store only by the object a successful DeriveKey adds *)
+Theorem crypto_engine_gated : forall cok s o r s',
+  step cok s o = (r, s') -> crypto_called o r = true -> gate s o.
+Proof.
+  intros cok s o r s' H C. pose proof (crypto_called_entered _ _ C) as E.
+  destruct o; try (simpl in C; discriminate); unfold gate.
+  - eapply encrypt_gated; eassumption.
+  - eapply decrypt_gated; eassumption.
+  - eapply sign_gated; eassumption.
+  - eapply signature_verify_gated; eassumption.
+  - eapply mac_gated; eassumption.
+  - destruct (derive_key_gated _ _ _ _ _ _ H E) as [A [B _]]. split; assumption.
+  - eapply get_wrap_gated; eassumption.
+Qed.
+
+Theorem crypto_gated : forall cok s o s', step cok s o = (OK, s') -> gate s o.
+Proof.
+  intros cok s o s' H. destruct (gated o) eqn:G.
+  - eapply crypto_engine_gated. eassumption. unfold crypto_called. rewrite G. reflexivity.
+  - destruct o; simpl in G; try discriminate; exact I.
+Qed.
+
+Theorem gated_store_unchanged : forall cok s o r s',
+  step cok s o = (r, s') -> gated o = true ->
+  s' = s \/ (exists us m, o = DeriveKey us m /\ r = OK /\ s' = add_obj s SymmetricKey m).
+Proof.
+  intros cok s o r s' H G. destruct o; simpl in G; try discriminate; simpl in H.
+  - inversion H. auto.
+  - inversion H. auto.
+  - inversion H. auto.
+  - inversion H. auto.
+  - destruct (lookup u (objs s)) as [ob|]; [|inversion H; auto].
+    destruct (negb (alg || is_key (oty ob))); [inversion H; auto|]. destruct (negb data); [inversion H; auto|].
+    destruct (ost ob) as [st|]; [|inversion H; auto]. destruct (negb (state_eqb st Active)); [inversion H; auto|].
+    destruct (negb (has_bit (omask ob) bMAC_GENERATE)); [inversion H; auto|]. destruct cok; inversion H; auto.
+  - destruct (derive_bases s us); [inversion H; auto|]. destruct us; [inversion H; auto|].
+    destruct cok; inversion H; auto. right. eauto.
+  - destruct (lookup u (objs s)) as [ob|]; [|inversion H; auto]. destruct (lookup w (objs s)) as [k|]; [|inversion H; auto].
+    destruct (negb (otype_eqb (oty k) SymmetricKey)); [inversion H; auto|]. destruct (negb (is_active k)); [inversion H; auto|].
+    destruct (negb (has_bit (omask k) bWRAP_KEY)); [inversion H; auto|].
+    destruct cok; [destruct (has_key_block (oty ob))|]; inversion H; auto.
+Qed.
+
+(* the same over histories: at whatever point of whatever history, a use that goes ahead went through the gate *)
+Theorem crypto_gated_history : forall first h e r s',
+  step (snd e) (exec (empty_store first) h) (fst e) = (r, s') -> crypto_called (fst e) r = true ->
+  gate (exec (empty_store first) h) (fst e).
+Proof. intros. eapply crypto_engine_gated; eassumption. Qed.
 
 (* ------------------------------------------------------------------ C04 clause 4: Destroy is refused for an Active object *)
 Theorem destroy_refused_when_active : forall cok s u ob,
